@@ -547,7 +547,10 @@ def step (s : St) (inj : Inj) (op : Op) : St :=
           | none => s
         match hh.kind with
         | .tcp =>
-          if (match target with | some t => decide (((s.liveH t).map (·.kind)) ≠ some .tcp) | none => false) then bad s else
+          let badTarget : Bool := match target with
+            | some t => decide (((s.liveH t).map (·.kind)) ≠ some .tcp)
+            | none => false
+          if badTarget then bad s else
           if hh.connected then ret s false else
           let (sockOk, s) := if hh.delayed || s.has (.handle h .io) then (true, s) else
             match s.sys inj "socket" with
